@@ -131,6 +131,7 @@ func normSrc(fset *token.FileSet, n ast.Node, loc map[string]int) string {
 		name string
 	}
 	var undo []saved
+	local := map[string]int{}
 	var walk func(n ast.Node)
 	walk = func(n ast.Node) {
 		ast.Inspect(n, func(m ast.Node) bool {
@@ -142,7 +143,13 @@ func normSrc(fset *token.FileSet, n ast.Node, loc map[string]int) string {
 				walk(v.Value)
 				return false
 			case *ast.Ident:
-				if k, ok := loc[v.Name]; ok {
+				if _, ok := loc[v.Name]; ok {
+					// numbered by first occurrence inside this expression: neither a rename nor a new local elsewhere changes it
+					k, seen := local[v.Name]
+					if !seen {
+						k = len(local) + 1
+						local[v.Name] = k
+					}
 					undo = append(undo, saved{v, v.Name})
 					v.Name = "$" + strconv.Itoa(k)
 				}
